@@ -11,31 +11,62 @@ theorem eof_closes (s : St) : fail (fail s .eof) .eof = .closed := by cases s <;
 theorem eof_closes_at_once (s : St) (h : s = .imapCmd ∨ s = .imapIdle ∨ s = .lmtpCmd ∨ s = .saslCmd) : fail s .eof = .closed := by
   rcases h with rfl | rfl | rfl | rfl <;> rfl
 
-/-- C20.2 partial  a client that falls silent is logged off after the state's deadline plus, where the failed read returns to
-the command loop, that loop's deadline: a bound exists in every state **except inside IDLE**, and it is at most 35 minutes for
-IMAP, twice the configured timeout for LMTP, 30 s for SASL. Missing from the full statement: inside IDLE the code polls with a
-50 ms deadline and has no overall limit (finding C20-F1). -/
-theorem silence_closes_partial (t : Nat) (s : St) (h : s ≠ .imapIdle) :
+/-- C20.2  a client that falls silent is logged off in bounded time **in every state**: outside IDLE after the state's read
+deadline plus, where the failed read returns to the command loop, that loop's deadline — at most 35 minutes for IMAP, twice
+the configured timeout for LMTP, 30 s for SASL. -/
+theorem silence_closes (t : Nat) (s : St) (h : s ≠ .imapIdle) :
     ∃ b, silenceBound t s = some b ∧ fail (fail s .deadline) .deadline = .closed ∧ b ≤ max (35 * 60 * 1000) (2 * t * 1000) := by
   cases s <;> first | (exact absurd rfl h) | (refine ⟨_, rfl, rfl, ?_⟩; simp [deadlineMs, fail] <;> omega)
 
-/-- the missing case, as the model has it: silence inside IDLE never ends the session -/
-def failN : Nat → St → St
-  | 0, s => s
-  | n + 1, s => failN n (fail s .deadline)
+/-- C20.2'  …and inside IDLE (formerly finding C20-F1: no limit at all): whatever a round of the loop costs (`d` > 0 ms), the
+session of a silent client is closed at the head of round `⌈limit/d⌉`, less than one round after the 30-minute limit. -/
+theorem idle_silence_closes (d : Nat) (hd : 0 < d) :
+    ∃ n e, n ≤ idleLimitMs / d + 2 ∧ silentRun d n (.imapIdle, 0) = (.closed, e) ∧ idleLimitMs ≤ e ∧ e < idleLimitMs + d := by
+  -- k = the number of rounds that begin before the limit
+  obtain ⟨k, hk1, hk2, hk3⟩ : ∃ k, idleLimitMs ≤ k * d ∧ k * d < idleLimitMs + d ∧ k ≤ idleLimitMs / d + 1 := by
+    generalize idleLimitMs = L
+    have h1 := Nat.div_add_mod L d
+    have h2 := Nat.mod_lt L hd
+    by_cases hz : L % d = 0
+    · refine ⟨L / d, ?_, ?_, by omega⟩
+      · rw [Nat.mul_comm]; omega
+      · rw [Nat.mul_comm]; omega
+    · refine ⟨L / d + 1, ?_, ?_, by omega⟩
+      · rw [Nat.add_mul, Nat.mul_comm]; omega
+      · rw [Nat.add_mul, Nat.mul_comm]; omega
+  refine ⟨k + 1, k * d, by omega, ?_, hk1, hk2⟩
+  have hrun : silentRun d k (.imapIdle, 0) = (.imapIdle, 0 + k * d) := by
+    apply idle_rounds d k 0 (by omega) (by omega)
+    intro j hj
+    -- a round that begins at or after the limit would make k smaller
+    have : (j + 1) * d ≤ k * d := Nat.mul_le_mul_right d (by omega)
+    rw [Nat.succ_mul] at this
+    have hlt : k * d < idleLimitMs + d := hk2
+    omega
+  have happ : ∀ (a b : Nat) (x : St × Nat), silentRun d (a + b) x = silentRun d b (silentRun d a x) := by
+    intro a
+    induction a with
+    | zero => intro b x; simp [silentRun]
+    | succ a ih => intro b x; rw [Nat.succ_add]; simp only [silentRun]; exact ih b _
+  rw [happ k 1, hrun]
+  simp only [silentRun, silentStep, Nat.zero_add]
+  have : k * d ≥ idleLimitMs := hk1
+  simp [this]
 
-theorem idle_silence_unbounded (t : Nat) : silenceBound t .imapIdle = none ∧ ∀ n : Nat, failN n .imapIdle = .imapIdle := by
-  refine ⟨rfl, ?_⟩
-  intro n
-  induction n with
-  | zero => rfl
-  | succ k ih => simpa [failN, fail] using ih
+/-- the bound the harness waits for: defined in every state -/
+theorem silence_bound_total (t : Nat) (s : St) : (silenceBound t s).isSome = true := by
+  cases s <;> simp [silenceBound, deadlineMs, fail]
 
-/-- every deadline the code sets is one of the documented ones (30 min command, 5 min literal, 30 s authentication / SASL) -/
+-- non-vacuity: with rounds of 7 minutes the session is closed at the head of the sixth round, 35 minutes after IDLE began
+example : silentRun 420000 6 (.imapIdle, 0) = (.closed, 2100000) ∧ silentRun 420000 5 (.imapIdle, 0) = (.imapIdle, 2100000) := by decide
+
+/-- every deadline the code sets is one of the documented ones (30 min command, 5 min literal, 30 s authentication / SASL,
+the 50 ms poll inside IDLE) -/
 theorem deadlines (t : Nat) :
     deadlineMs t .imapCmd = some 1800000 ∧ deadlineMs t .imapLiteral = some 300000 ∧ deadlineMs t .imapAuthWait = some 30000 ∧
-    deadlineMs t .saslCmd = some 30000 ∧ deadlineMs t .lmtpCmd = some (t * 1000) ∧ deadlineMs t .lmtpData = some (t * 1000) := by
-  simp [deadlineMs]
+    deadlineMs t .saslCmd = some 30000 ∧ deadlineMs t .lmtpCmd = some (t * 1000) ∧ deadlineMs t .lmtpData = some (t * 1000) ∧
+    deadlineMs t .imapIdle = some 50 ∧ idleLimitMs = 1800000 := by
+  simp [deadlineMs, idleLimitMs]
 
 /-! ## shutdown -/
 /-- C20.3  after Shutdown no dial is accepted, whatever else happens -/
